@@ -1,6 +1,6 @@
 (* C30 - Vectorized leaf search equals binary search.
-   Property theorems only; the model is Model/LeafSearch.v (hand-written from src/btree/simd_scan.rs and
-   extract_prefix of src/btree/leaf.rs), the proofs are in Proof/LeafSearch*.v.
+   Property theorems only; the model is Model/LeafSearch.v (hand-written from src/btree/simd_scan.rs as of
+   /repo commit 6f8c0a4 and extract_prefix of src/btree/leaf.rs), the proofs are in Proof/LeafSearch*.v.
    A page is the list of its keys in slot order; well-formed = strict_sorted (strictly increasing byte
    strings) with byte values in [0,256).  `bsearch` is the plain binary search over the full keys,
    `lin_search` its characterisation (first key >= probe). *)
